@@ -1,0 +1,20 @@
+//go:build verif
+
+package file
+
+import "golang.org/x/crypto/ssh"
+
+// Verification hook for the field splitting of authorized_keys / known_hosts lines (see /verif,
+// property C06). Not compiled without the "verif" build tag.
+
+// VerifSSHKeyBlobAttrs: what ssh.ParsePublicKey makes of a decoded key blob, rendered with the
+// attribute builder the line parsers use: the key type and the attributes of the key itself
+// (no comment).
+func VerifSSHKeyBlobAttrs(blob []byte) (string, []Attribute, error) {
+	pub, err := ssh.ParsePublicKey(blob)
+	if err != nil {
+		return "", nil, err
+	}
+	attrs := sshPublicKeyAttributes(pub, "")
+	return attrs[0].Value, attrs[1:], nil
+}
